@@ -208,8 +208,8 @@ def random_script(rng: random.Random, size: int, leak_p: float, max_depth: int =
             budget[0] -= 1
             r = rng.random()
             if r < 0.55 or depth >= max_depth:
-                kind = rng.choice(["neg", "add", "add", "sum", "less", "const"])
-                if kind == "const":
+                kind = rng.choice(["neg", "add", "add", "sum", "less", "const", "init"])
+                if kind in ("const", "init"):
                     refs = []
                 elif kind == "neg":
                     refs = [pick("f", open_bodies, local)]
